@@ -388,6 +388,30 @@ def run_transparency(chk, pool):
             _ob_bad(chk, f"transparency/inside {o} {c}/first element={label(F.KIDS[i])}", cnt, bad)
     m = F.check_text("a ; c\r still the comment\n b", [c_sym("a"), c_sym("b")])
     _ob_bad(chk, "transparency/comment/a carriage return does not end a comment, the next line feed does", 1, [m] if m else [])
+    # scale: nothing in the property bounds the length of a separator or of a token - runs far longer than any look-ahead buffer,
+    # at the top level, inside brackets, leading and trailing, and identifiers / comments / strings of that length
+    a, b, c = c_sym("a"), c_sym("b"), c_sym("c")
+    bad, cnt = [], 0
+    for n in (255, 256, 257, 300, 1000, 5000, 70000):
+        for ws in (" ", "\n", "\t", "\r", "\f", "\v", " \t\n\r\f\v"):
+            run = (ws * (n // len(ws) + 1))[:n]
+            for text, want in ((f"a{run}b c", [a, b, c]), (f"{run}a b{run}", [a, b]), (f"(a{run}b) c", [c_seq("Expression", [a, b]), c]),
+                               (f"[a b{run}] c", [c_seq("List", [a, b]), c]), (f"'{run}a b", [c_seq("Expression", [c_sym("quote"), a]), b]),
+                               (f"a ;{'x' * n}\n b", [a, b]), (f"a #_{run}b c", [a, c])):
+                cnt += 1
+                m = F.check_text(text, want)
+                if m:
+                    m = dict(m)
+                    m["input"] = (m.get("input") or text)[:40] + f"... ({len(text)} characters; separator run of {n})"
+                    bad.append(m)
+        ident = "i" + "d" * n
+        for text, want in ((f"{ident} b", [c_sym(ident), b]), (f"a {ident}", [a, c_sym(ident)])):
+            cnt += 1
+            m = F.check_text(text, want)
+            if m:
+                bad.append({"input": f"an identifier of {n + 1} characters", "observed": str(m)[:200]})
+    chk.evaluations += cnt
+    _ob_bad(chk, "transparency/scale/separator runs, comments and identifiers of 255 to 70000 characters read like short ones", cnt, bad)
     # sequences of length 0..4
     empties = [""] + F.PAIR_SEPS + F.EOF_ONLY_SEPS + [s + e for s in F.SINGLE_SEPS for e in F.EOF_ONLY_SEPS]
     bad = [m for m in (F.check_text(t, []) for t in empties) if m]
